@@ -10,8 +10,9 @@ from .values import And_, CheckerError, Eq_, Implies_, Not_, Or_, SExc, SObj, SO
 
 
 class Clause:
-    def __init__(self, label, fn, props=(), when=None):
+    def __init__(self, label, fn, props=(), when=None, lemmas=()):
         self.label, self.fn, self.props, self.when = label, fn, tuple(props), when
+        self.lemmas = list(lemmas)  # [(label, fn(o, n, r))] proved in order, each usable by the next and by the goal
 
 
 class RaiseClause:
